@@ -80,7 +80,8 @@ def points(p, rnd):
 
 
 def day_job(job):
-    iso, seed, full_env = job
+    iso, seed, full_env = job[:3]
+    neighbours = job[3] if len(job) > 3 else ()
     from _gettsim.config import INTERNAL_PARAMS_GROUPS
     from _gettsim.piecewise_functions import piecewise_polynomial
     from _gettsim.policy_environment import _load_parameter_group_from_yaml, _parse_piecewise_parameters
@@ -95,6 +96,14 @@ def day_job(job):
             continue
         import copy
 
+        # the parser is a function of the entry it is given: the schedules in force on the neighbouring change days are parsed
+        # first in this process (a parser that remembers an earlier schedule then shows here)
+        for niso in neighbours:
+            try:
+                nraw = _load_parameter_group_from_yaml(datetime.date.fromisoformat(niso), g)
+                _parse_piecewise_parameters(copy.deepcopy(nraw))
+            except Exception:  # noqa: BLE001
+                pass
         try:
             parsed = _parse_piecewise_parameters(copy.deepcopy(raw))
         except Exception as e:  # noqa: BLE001
@@ -157,7 +166,12 @@ def run(tier):
         keep = set(days[-30:]) | set(rnd.sample(days[:-30], 18))
         days = sorted(keep)
     full = set(rnd.sample(days, min(len(days), 6 if quick else 40))) | {d for d in days if d.endswith('-01-01') and d >= '2021-01-01'}
-    outs = pool_map(day_job, [(d, rnd.randrange(1 << 30), d in full) for d in days])
+    alld = change_days(False, rnd)
+    def nb(d):
+        i = alld.index(d) if d in alld else -1
+        return tuple(x for x in ((alld[i - 1] if i > 0 else None), (alld[i + 1] if 0 <= i < len(alld) - 1 else None)) if x)
+
+    outs = pool_map(day_job, [(d, rnd.randrange(1 << 30), d in full, nb(d)) for d in days])
     traces = []
     for ev, meta in outs:
         if ev:
